@@ -4,7 +4,7 @@
    base/Sem.v.  Row-level facts are in proofs/PolyLP.v. *)
 From Coq Require Import List String Bool QArith Qabs ZArith Reals Qreals Lra Lia.
 Import ListNotations.
-Require Import Py ListsGen Sem Term Poly PolySpec QR ListsFacts TermFacts PolyLP.
+Require Import Py ListsGen ConstGen Sem Term Poly PolySpec QR ListsFacts TermFacts PolyLP.
 Local Open Scope R_scope.
 
 (* ------------------------------------------------------------------ *)
@@ -203,17 +203,29 @@ Proof.
   induction l as [|[k q] r IH]; intros H; simpl; [reflexivity|].
   rewrite IH, (H k); [lra|left; reflexivity|]. intros x Hx. apply H. right. exact Hx.
 Qed.
-Lemma violable t : wft t -> nzt t -> term_vars_p t <> [] -> exists rho, ~ sat rho t.
+Lemma unbounded_term t : wft t -> nzt t -> term_vars_p t <> [] ->
+  forall bound, exists rho, bound < lin rho (tvars t).
 Proof.
-  unfold wft, nzt, nzl, term_vars_p, sat. destruct t as [l c]. simpl.
-  destruct l as [|[k q] r]; intros Hn Hz Hv; [exfalso; apply Hv; reflexivity|].
+  unfold wft, nzt, nzl, term_vars_p. destruct t as [l c]. simpl.
+  destruct l as [|[k q] r]; intros Hn Hz Hv bound; [exfalso; apply Hv; reflexivity|].
   inversion Hn as [|? ? Hk Hr]; subst. inversion Hz as [|? ? Hq _]; subst. simpl in Hq.
   apply Q2R_neq0 in Hq.
-  exists (fun v => if String.eqb k v then (Q2R c + 1) / Q2R q else 0).
+  exists (fun v => if String.eqb k v then (bound + 1) / Q2R q else 0).
   simpl. rewrite String.eqb_refl. rewrite lin_vanish.
-  - intros H. assert (E : Q2R q * ((Q2R c + 1) / Q2R q) = Q2R c + 1) by (field; exact Hq). lra.
+  - assert (E : Q2R q * ((bound + 1) / Q2R q) = bound + 1) by (field; exact Hq). lra.
   - intros x Hx. destruct (String.eqb k x) eqn:E; [|reflexivity].
     apply String.eqb_eq in E. subst. contradiction.
+Qed.
+Lemma violable t : wft t -> nzt t -> term_vars_p t <> [] -> exists rho, ~ sat rho t.
+Proof.
+  intros H1 H2 H3. destruct (unbounded_term t H1 H2 H3 (Q2R (tconst t))) as [rho Hr].
+  exists rho. unfold sat. lra.
+Qed.
+Lemma violable_tol tau t : wft t -> nzt t -> term_vars_p t <> [] -> exists rho, ~ sat_tol tau rho t.
+Proof.
+  intros H1 H2 H3.
+  destruct (unbounded_term t H1 H2 H3 (Q2R (tconst t) + Q2R tau * (1 + Rabs (Q2R (tconst t))))) as [rho Hr].
+  exists rho. unfold sat_tol. lra.
 Qed.
 Lemma violable_list ts : wfl ts -> nz_terms ts -> ts <> [] -> exists rho, ~ sat_list rho ts.
 Proof.
@@ -222,6 +234,44 @@ Proof.
   destruct (violable t) as [rho Hr]; try assumption.
   - eapply all_have_vars_in; [exact Hv|left; reflexivity].
   - exists rho. intros H. inversion H; subst. contradiction.
+Qed.
+Lemma violable_list_tol tau ts : wfl ts -> nz_terms ts -> ts <> [] ->
+  exists rho, ~ Forall (sat_tol tau rho) ts.
+Proof.
+  intros [Hw Hv] Hz Hne. destruct ts as [|t ts]; [congruence|].
+  inversion Hw; subst. inversion Hz; subst.
+  destruct (violable_tol tau t) as [rho Hr]; try assumption.
+  - eapply all_have_vars_in; [exact Hv|left; reflexivity].
+  - exists rho. intros H. inversion H; subst. contradiction.
+Qed.
+
+(* ------------------------------------------------------------------ *)
+(** * Satisfaction up to the refinement tolerance *)
+Lemma sat_tol_weaken tau rho t : sat rho t -> 0 <= Q2R tau -> sat_tol tau rho t.
+Proof.
+  unfold sat, sat_tol. intros H Ht. pose proof (Rabs_pos (Q2R (tconst t))). nra.
+Qed.
+Lemma sat_tol_weakenQ tau rho t : sat rho t -> (0 <= tau)%Q -> sat_tol tau rho t.
+Proof. intros H Ht. apply sat_tol_weaken; [exact H|]. apply Qle_Rle in Ht. rewrite Q2R_0 in Ht. exact Ht. Qed.
+Lemma sat_list_tol rho ts : sat_list rho ts -> Forall (sat_tol REFINEMENT_TOLERANCE rho) ts.
+Proof.
+  unfold sat_list. rewrite !Forall_forall. intros H t Ht. apply sat_tol_weaken; [apply H; exact Ht|apply tol_nonneg].
+Qed.
+Definition small_consts (B : list pterm) : Prop :=
+  Forall (fun t => (Q2R REFINEMENT_TOLERANCE * (1 + Rabs (Q2R (tconst t))) < 1)%R) B.
+Lemma small_rows_terms vs B : small_consts B -> small_rows (map (term_to_row vs) B).
+Proof.
+  unfold small_consts, small_rows. rewrite !Forall_forall. intros H r Hr.
+  apply in_map_iff in Hr. destruct Hr as [t [<- Ht]]. simpl. apply H. exact Ht.
+Qed.
+Lemma feas_tol_sat vs ts rho : NoDup vs -> covered vs ts ->
+  (feas_tol (map (term_to_row vs) ts) (map rho vs) <-> Forall (sat_tol REFINEMENT_TOLERANCE rho) ts).
+Proof.
+  intros Hn Hc. induction ts as [|t ts IH]; simpl.
+  - split; intros; constructor.
+  - inversion Hc as [|? ? [Ht Hv] Hc']; subst. rewrite feas_tol_cons, IH by exact Hc'.
+    rewrite dot_term_to_row by assumption. simpl snd. rewrite Q2R_tol_bound.
+    rewrite Forall_cons_iff. unfold sat_tol. tauto.
 Qed.
 
 (* ------------------------------------------------------------------ *)
@@ -452,32 +502,58 @@ Local Lemma rvs_B : covered vs B.
 Proof. apply covered_polytope_r. apply HB. Qed.
 
 Theorem refines_sound :
-  poly_refines O A B = inl true -> forall rho, sat_list rho A -> sat_list rho B.
+  small_consts B ->
+  poly_refines O A B = inl true ->
+  forall rho, sat_list rho A -> Forall (sat_tol REFINEMENT_TOLERANCE rho) B.
 Proof.
-  intros H rho Hs. destruct (nil_or_not B) as [EB|NB]; [rewrite EB; constructor|].
+  intros Hsm H rho Hs. destruct (nil_or_not B) as [EB|NB]; [rewrite EB; constructor|].
   destruct (nil_or_not A) as [EA|NA]; [rewrite EA, poly_refines_nil_l in H by exact NB; discriminate|].
   rewrite poly_refines_unfold in H by assumption. fold vs in H.
-  apply (feas_sat vs B rho rvs_nodup rvs_B).
-  apply (vpc_true O HO (List.length vs) _ _ (wf_rows_terms vs B) H (map rho vs)).
+  apply (feas_tol_sat vs B rho rvs_nodup rvs_B).
+  apply (vpc_true O HO (List.length vs) _ _ (wf_rows_terms vs B) (small_rows_terms vs B Hsm) H (map rho vs)).
   - apply map_length.
   - apply (feas_sat vs A rho rvs_nodup rvs_A). exact Hs.
 Qed.
 
-(* when A is empty the code answers False without looking at B; a nonempty B of genuine
-   constraints (no stored zero coefficient) is indeed violable *)
-Theorem refines_false_witness :
+(* Answer False.  When A is empty the code answers False without looking at B; a nonempty B of
+   genuine constraints (no stored zero coefficient) is violable by any amount.  Otherwise some
+   point of A violates B exactly; it violates B beyond the tolerance provided B itself has a
+   point (the emptiness pre-check of B is exact, not tolerant). *)
+Lemma refines_false_witness_both :
   (A = [] -> nz_terms B) ->
-  poly_refines O A B = inl false -> exists rho, sat_list rho A /\ ~ sat_list rho B.
+  poly_refines O A B = inl false ->
+  exists rho, sat_list rho A /\ ~ sat_list rho B /\
+    (small_consts B -> (exists rho', sat_list rho' B) -> ~ Forall (sat_tol REFINEMENT_TOLERANCE rho) B).
 Proof.
   intros Hz H. destruct (nil_or_not B) as [EB|NB]; [rewrite EB, poly_refines_nil_r in H; discriminate|].
   destruct (nil_or_not A) as [EA|NA].
-  - destruct (violable_list B HB (Hz EA) NB) as [rho Hr]. exists rho. split; [rewrite EA; constructor|exact Hr].
+  - destruct (violable_list_tol REFINEMENT_TOLERANCE B HB (Hz EA) NB) as [rho Hr]. exists rho.
+    split; [rewrite EA; constructor|]. split; [|intros _ _; exact Hr].
+    intros Hs. apply Hr. apply sat_list_tol. exact Hs.
   - rewrite poly_refines_unfold in H by assumption. fold vs in H.
     apply (vpc_false O HO (List.length vs) _ _ (wf_rows_terms vs B)) in H.
-    destruct H as [x [Lx [Fa Fb]]].
-    destruct (point_is_valuation vs x rvs_nodup Lx) as [rho ->]. exists rho. split.
+    destruct H as [x [Lx [Fa [Fb Ft]]]].
+    destruct (point_is_valuation vs x rvs_nodup Lx) as [rho ->]. exists rho. split; [|split].
     + apply (feas_sat vs A rho rvs_nodup rvs_A). exact Fa.
     + intros Hs. apply Fb. apply (feas_sat vs B rho rvs_nodup rvs_B). exact Hs.
+    + intros Hsm [rho' Hs'] Hs. apply Ft.
+      * apply small_rows_terms. exact Hsm.
+      * exists (map rho' vs). split; [apply map_length|]. apply (feas_sat vs B rho' rvs_nodup rvs_B). exact Hs'.
+      * apply (feas_tol_sat vs B rho rvs_nodup rvs_B). exact Hs.
+Qed.
+Theorem refines_false_witness :
+  small_consts B -> (exists rho', sat_list rho' B) -> (A = [] -> nz_terms B) ->
+  poly_refines O A B = inl false ->
+  exists rho, sat_list rho A /\ ~ Forall (sat_tol REFINEMENT_TOLERANCE rho) B.
+Proof.
+  intros Hsm Hf Hz H. destruct (refines_false_witness_both Hz H) as [rho [H1 [_ H3]]].
+  exists rho. split; [exact H1|]. apply H3; assumption.
+Qed.
+Corollary refines_false_witness_exact :
+  (A = [] -> nz_terms B) ->
+  poly_refines O A B = inl false -> exists rho, sat_list rho A /\ ~ sat_list rho B.
+Proof.
+  intros Hz H. destruct (refines_false_witness_both Hz H) as [rho [H1 [H2 _]]]. exists rho. tauto.
 Qed.
 
 Hypothesis HT : lp_total O.
@@ -497,7 +573,7 @@ Theorem refines_complete :
   (forall rho, sat_list rho A -> sat_list rho B) -> poly_refines O A B = inl true.
 Proof.
   intros Hz Himp. destruct refines_errors as [[|] Hb]; [exact Hb|].
-  exfalso. destruct (refines_false_witness Hz Hb) as [rho [H1 H2]]. apply H2. apply Himp. exact H1.
+  exfalso. destruct (refines_false_witness_exact Hz Hb) as [rho [H1 H2]]. apply H2. apply Himp. exact H1.
 Qed.
 
 Corollary refines_infeasible_left :
@@ -510,8 +586,14 @@ Qed.
 Corollary refines_infeasible_right :
   (exists rho, sat_list rho A) -> (forall rho, ~ sat_list rho B) -> poly_refines O A B = inl false.
 Proof.
-  intros [rho Hs] Hinf. destruct refines_errors as [[|] Hb]; [|exact Hb].
-  exfalso. apply (Hinf rho). apply (refines_sound Hb rho Hs).
+  intros [rho Hs] Hinf.
+  destruct (nil_or_not B) as [EB|NB]; [exfalso; apply (Hinf rho); rewrite EB; constructor|].
+  destruct (nil_or_not A) as [EA|NA]; [rewrite EA; apply poly_refines_nil_l; exact NB|].
+  rewrite poly_refines_unfold by assumption. fold vs.
+  apply (vpc_infeasible_right O HO (List.length vs) _ _ HT).
+  - exists (map rho vs). split; [apply map_length|]. apply (feas_sat vs A rho rvs_nodup rvs_A). exact Hs.
+  - intros y Ly Fy. destruct (point_is_valuation vs y rvs_nodup Ly) as [rho' ->].
+    apply (Hinf rho'). apply (feas_sat vs B rho' rvs_nodup rvs_B). exact Fy.
 Qed.
 Corollary refines_sublist : incl B A -> poly_refines O A B = inl true.
 Proof.
